@@ -1095,11 +1095,11 @@ impl super::MainState {
                                     )
                                     .await?;
                                 }
-                            } else if user.modes.local_oper {
+                            } else if user.modes.is_local_oper() {
+                                // remove local operator status and (stronger) operator status.
                                 user.modes.local_oper = false;
-                                if !user.modes.oper {
-                                    state.operators_count -= 1;
-                                }
+                                user.modes.oper = false;
+                                state.operators_count -= 1;
                                 // put to applied modes
                                 unset_modes_string.push('O');
                             }
